@@ -33,10 +33,16 @@ theorem lineComment_length (l : Input) : (lineComment l).length ≤ l.length := 
   | nil => simp [lineComment]
   | cons r rest ih => unfold lineComment; split <;> simp <;> omega
 
-theorem blockComment_length (l : Input) : ∀ b, (blockComment b l).length ≤ l.length := by
+theorem blockComment_length (l : Input) : ∀ b r', blockComment b l = some r' → r'.length ≤ l.length := by
   induction l with
-  | nil => intro b; simp [blockComment]
-  | cons r rest ih => intro b; unfold blockComment; split <;> simp <;> (try have := ih (r.code == 42)) <;> omega
+  | nil => intro b r' h; simp [blockComment] at h
+  | cons r rest ih =>
+    intro b r' h
+    unfold blockComment at h
+    split at h
+    · cases h; simp
+    · have := ih _ _ h
+      simp only [List.length_cons]; omega
 
 theorem scanStringBody_length (q : Nat) (l : Input) :
     ∀ s, (scanStringBody q s l).2.length ≤ l.length := by
@@ -122,9 +128,13 @@ theorem scanTok_ok : ∀ fuel (l : Input), l.length < fuel → TokOk l.length (s
         | nil => exact TokOk.mk (by omega)
         | cons c rest' =>
           simp only [List.length_cons] at hw
-          refine TokOk.ite (fun _ => hrec _ ?_) fun _ => TokOk.ite (fun _ => hrec _ ?_) fun _ => ?_
+          refine TokOk.ite (fun _ => hrec _ ?_) fun _ => TokOk.ite (fun _ => ?_) fun _ => ?_
           · have := lineComment_length rest'; omega
-          · have := blockComment_length rest' false; omega
+          · cases hb : blockComment false rest' with
+            | none => exact TokOk.mk (by simp only [List.length_nil, List.length_cons]; omega)
+            | some r'' =>
+              have := blockComment_length rest' false r'' hb
+              exact hrec _ (by omega)
           · exact TokOk.mk (by simp only [List.length_cons]; omega)
       exact TokOk.ite (fun _ => TokOk.mk (by omega)) (fun _ => TokOk.mk (by omega))
 
